@@ -71,7 +71,9 @@ Grid(f, x) ==
       qe == Max2(fl, f.Emin) - (f.M - 1)
       nn == IF qe < 0 THEN Shl(a.n.m, -qe) ELSE a.n.m
       dd == IF qe > 0 THEN Shl(a.d, qe) ELSE a.d
-      qr == DivMod(nn, dd)
+      \* a power-of-two divisor (every dyadic source: floats, encode) needs no long division
+      k2 == BitLen(dd) - 1
+      qr == IF TrailingZeros(dd) = k2 THEN <<Shr(nn, k2), LowBits(nn, k2)>> ELSE DivMod(nn, dd)
   IN [neg |-> x.n.s = 1, fl |-> fl, qe |-> qe, lo |-> qr[1], exact |-> qr[2] = <<>>,
       half |-> Cmp(Shl(qr[2], 1), dd), sub |-> fl < f.Emin, r |-> qr[2], dd |-> dd]
 
